@@ -462,6 +462,21 @@ GROUPS["bvd_bytes"] = G("bvd_bytes", BVD_PRELUDE + ["bytes.rs"], BVD_BASE + stub
 GROUPS["bvd_bytes"]["features"] = "#![feature(allocator_api)]"
 GROUPS["bv_bytes"] = G("bv_bytes", BV_PRELUDE + ["bytes.rs", "bv_words.rs"], BV_BASE + stub(["bvf.to_vec", "bvd.to_vec"]) + verify(["bv.to_vec"]))
 GROUPS["bv_bytes"]["features"] = "#![feature(allocator_api)]"
+def bv_conv_prelude(ctx):
+    return bv_ops_prelude(ctx)
+def bv_conv_items(ctx):
+    it = BV_BASE + int_impl_j(ctx) + [("stub", "bvd.clone")]
+    it += [("stub", "bvf.try_from_bvf", {"I": "u64", "J": "{J}", "XJ": "{XJ}"})]
+    if ctx["J"] != "u64":
+        it += [("stub", "bvd.from_bvf"), ("stub", "bvf.capacity", {"I": "{J}", "X": "{XJ}"})]
+    else:
+        it += verify(["bv.from_bv", "bv.from_bvd_ref", "bv.from_bvd", "bvd.from_bv"])
+    return it + verify(["bv.from_bvf"])
+GROUPS["bv_conv"] = dict(name="bv_conv", features="#![feature(allocator_api)]", prelude=bv_conv_prelude, items=bv_conv_items)
+GROUPS["bv_div"] = G("bv_div", BV_VAL_PRELUDE + ["value_div.rs", "bvf_div.rs", "bvd_div.rs", "cmp_std.rs", "bv_div.rs"],
+    BV_BASE + stub(["bv.len", "bv.zeros", "bv.resize", "bv.set", "bv.is_zero", "bv.significant_bits", "bv.clone", "bv.from_bv", "bv.partial_cmp_bv"]) +
+    [("stub", "bv.shl_assign", {"T": "usize"}), ("stub", "bv.shr_assign", {"T": "u32"}), ("stub", "bv.addsub_bv", ARITH_D["sub"])] + verify(["bv.div_rem_bv"]))
+GROUPS["bv_div"]["features"] = "#![feature(allocator_api)]"
 GROUPS["div_theory"] = dict(name="div_theory", prelude=lambda ctx: WORD_PRELUDE + VALUE_PRELUDE + ["value_div.rs"], items=lambda ctx: [("decl", "decl.Bit")])
 GROUPS["mul_theory"] = dict(name="mul_theory", prelude=lambda ctx: WORD_PRELUDE + VALUE_PRELUDE + ["value_mul.rs"], items=lambda ctx: [("decl", "decl.Bit")])
 
@@ -650,6 +665,8 @@ def dshift_ref(ts):
     return [("bvd_shift_ref", {"I": "u64", "T": t}) for t in ts]
 PROPS["C05"]["quick"] += dshift_ref(["u8", "u128"])
 PROPS["C05"]["thorough"] += dshift_ref(TYPES6)
+PROPS["C12"]["quick"] += [("bv_conv", pair("u64", j)) for j in WQ]
+PROPS["C12"]["thorough"] += [("bv_conv", pair("u64", j)) for j in W4]
 def hash_jobs(ws):
     return ([("bvf_hash", {"I": i}) for i in ws] + [("bvd_hash", U64), ("bv_hash", U64), ("bv_defaults", U64), ("bv_iarray", {"I": "u64", "J": "u64"})] +
             jobs("bvf_defaults", ws) + [("bvd_defaults", U64)])
@@ -688,10 +705,12 @@ _ARITH_Q = [("bvf_arith", pair(i, j, **ARITH[o])) for (i, j) in [("u64", "u64"),
 _BITOPS_Q = [("bvf_bitops", pair(i, j, **BITOPS[o])) for (i, j) in [("u64", "u64"), ("u64", "u8")] for o in ("and", "or", "xor")] + \
             [("bvd_bitops", dict(U64, **BITOPS[o])) for o in ("and", "or", "xor")]
 _BV_Q = BV_CORE_J + BV_MORE_J + bv_ops_jobs(["u64"], ("or",), BITOPS) + bv_ops_jobs(["u64"], ("add", "sub"), ARITH_D)
-PROPS["C03"] = {"quick": _ARITH_Q + BVD_ARITH_JOBS + _BITOPS_Q + _BV_Q, "thorough": PROPS["C01"]["thorough"] + PROPS["C04"]["thorough"]}
+# ... plus the editing / slicing units (normalisation after resize, copy_range, push/pop is where stale storage would appear)
+_EDIT_Q = jobs("bvf_core", ["u64"]) + jobs("bvf_slice", WQ) + [("bvd_core", U64), ("bvd_edit", U64), ("bvd_slice", U64)]
+PROPS["C03"] = {"quick": _ARITH_Q + BVD_ARITH_JOBS + _BITOPS_Q + _BV_Q + _EDIT_Q, "thorough": PROPS["C01"]["thorough"] + PROPS["C04"]["thorough"]}
 PROPS["C20"] = {"quick": _ARITH_Q + BVD_ARITH_JOBS + _BITOPS_Q + bv_ops_jobs(["u64"], ("or",), BITOPS) + bv_ops_jobs(["u64"], ("add", "sub"), ARITH_D) + bv_shift_jobs(["u64"]) + dshift_ref(["usize"]) + [("bvd_misc", U64)] + FORMS_Q, "thorough": PROPS["C01"]["thorough"] + PROPS["C04"]["thorough"] + PROPS["C05"]["thorough"] + FORMS_T}
 def div_jobs(pairs, ws):
-    return ([("div_theory", {"I": "u64"})] + [("bvf_div", pair(i, j)) for (i, j) in pairs] + [("bvf_div_bvd", dctx(i)) for i in ws] + [("bvd_div_bvf", pair("u64", j)) for j in ws])
+    return ([("div_theory", {"I": "u64"})] + [("bvf_div", pair(i, j)) for (i, j) in pairs] + [("bvf_div_bvd", dctx(i)) for i in ws] + [("bvd_div_bvf", pair("u64", j)) for j in ws] + [("bv_div", U64)])
 PROPS["C02"] = {"quick": BVD_ARITH_JOBS[1:] + div_jobs(PQ, WQ), "thorough": BVD_ARITH_JOBS + div_jobs(PT, W4)}
 
 # -------------------------------------------------------------------------------------------------
@@ -750,13 +769,13 @@ def dyn_only(pid, what, todo):
         note=("NOT a proof. " + todo + " " + TRUST_NOTE),
         technique="executable contracts on the real crate: seeded random search every run + Kani/CBMC bounded-exhaustive on small types (stand-in for contract units still to be written)")
 MANIFEST_TEXT["C02"] = dict(
-    text=("Proof: the real restoring-division bodies `div_rem` of Bvf<I,N> (divisor Bvf<J,N2> of any word size, or Bvd) and of Bvd (divisor Bvf<J,N2>) are verified against the VALUE-level contract "
+    text=("Proof: the real restoring-division bodies `div_rem` of Bvf<I,N> (divisor Bvf<J,N2> of any word size, or Bvd) of Bvd (divisor Bvf<J,N2>) and of Bv (divisor Bv: the auto type against itself, over its abstract view, every callee a verified Bv-level contract) are verified against the VALUE-level contract "
           "`q.val == a.val / b.val, r.val == a.val % b.val, both of the dividend's length and well formed`, with `panics_if b.val == 0`: the only reachable panic is the division-by-zero assert (reached exactly when the "
           "divisor's value is zero, empty divisors included) and `expect`/`unwrap` of the divisor conversion is proved unreachable also when the divisor is LONGER than the dividend or than its fixed capacity (D7). "
           "The loop invariant is the classical one (divisor = b*2^i, rem < b*2^(i+1), a = q*b + rem, quotient bits <= i clear) over exact integer equations; every callee is a verified contract "
           "(is_zero, significant_bits, copy_range, conversions, resize, <<=, >>=, -=, set, partial_cmp) bridged to values by a proved theory (spec/prelude/value_div.rs). "
           "Exploration for the rest: div_rem, /, %, /=, %= against u128 division for nine implementation pairings and native divisors; zero divisors must panic (checked natively)." + DYN_NOTE),
-    note=("Not under contract (second engine only): Bvd / Bvd and Bv dividends (same algorithm text; Bvd's conversion of a &Bvd divisor goes through Box::clone), the operator forms / % /= %= (forward to div_rem), native-integer divisors. "
+    note=("Not under contract (second engine only): Bvd / Bvd, Bvd / Bv, Bv / Bvf, Bv / Bvd, Bvf / Bv (same algorithm text with other divisor conversions), the operator forms / % /= %= (forward to div_rem), native-integer divisors. "
           "`rem >= divisor` is rewritten to a helper that is std's default PartialOrd::ge over the verified partial_cmp (R22, T1). A-size: len + 64 <= usize::MAX/2 for Bvd operands. " + TRUST_NOTE))
 MANIFEST_TEXT["C03"] = dict(
     text=("Proof (per operation, inductive over histories): every unit under contract takes a well-formed vector (len <= capacity, every storage bit at or beyond len zero) to a well-formed vector and states its "
@@ -792,7 +811,7 @@ MANIFEST_TEXT["C12"] = dict(
     text=("Proof: TryFrom<&Bvf<I1,N1>> for Bvf<I2,N2> (any two word sizes), TryFrom<&Bvd> for Bvf<I,N> and From<&Bvf<I,N>> for Bvd are verified against the contract "
           "`Err(NotEnoughCapacity) exactly when the source is LONGER than the target capacity (whatever its value); otherwise Ok with the same length, the same bit at every index below len, "
           "storage beyond len zero (wf), and for Bvd exactly ceil(len/64) words`, on top of the verified chunk readers IArray::get_int/int_len of Bvf and Bvd (every word-size pair)." + DYN_NOTE),
-    note=("Not yet under contract (second engine only): the by-value forms (forwarders), conversions from/to Bv, From<&[I]>, new/into_inner round trip (new/into_inner themselves are verified, see C07). "
+    note=("Also verified: From<&Bv>/From<Bvd>/From<&Bvd>/From<&Bvf<J,N>> for Bv (inline exactly when the length / the source capacity fits 128 bits) and From<&Bv> for Bvd. Not yet under contract (second engine only): the by-value forms (forwarders), TryFrom<&Bv> for Bvf, From<&[I]>, new/into_inner round trip (new/into_inner themselves are verified, see C07). "
           "The slice-level get_int (unsafe align_to / word-combining loop in utils.rs) is a trusted contract (T2). " + TRUST_NOTE))
 dyn_only("C13", "to_vec/write/from_bytes/read for both endiannesses incl. surplus bits, short input, capacity errors and round trips.", "from_bytes (enumerate/rev iterator adapters) and read/write (io traits, `?`) are outside what Verus takes; D3 was found and fixed. ONE direction IS verified on every run of this check: to_vec of Bvf, Bvd and Bv "
          "(exactly ceil(len/8) bytes; Little: bit t of byte j is bit 8j+t of the vector, surplus bits of the top byte zero; Big: the same bytes reversed) - units bvf.to_vec, bvd.to_vec, bv.to_vec; a definite failure there is reported as a violation of this property.")
